@@ -55,6 +55,13 @@ inductive Exn
   | py (e : Err) | boom
   deriving DecidableEq, Repr, Inhabited
 
+instance {ε α : Type} [DecidableEq ε] [DecidableEq α] : DecidableEq (Except ε α) := fun a b =>
+  match a, b with
+  | .ok x, .ok y => if h : x = y then isTrue (by rw [h]) else isFalse (fun h' => by cases h'; exact h rfl)
+  | .error x, .error y => if h : x = y then isTrue (by rw [h]) else isFalse (fun h' => by cases h'; exact h rfl)
+  | .ok _, .error _ => isFalse (fun h => by cases h)
+  | .error _, .ok _ => isFalse (fun h => by cases h)
+
 /-- Kinds of user callback an operation can invoke. -/
 inductive CbKind
   | transform | attrTransform | preparer | itemPreparer | postCopy
